@@ -1152,7 +1152,11 @@ class MainTransformer(object):
             parent = chain[-1] if chain else None
             if (block and parent):
                 virtual_annotation = block.annotations.get(ANN_VFUNC)
-                if virtual_annotation:
+                if virtual_annotation and not node.is_method:
+                    message.warn_node(node,
+                        "'%s' annotation on '%s', which is not a method" % (ANN_VFUNC,
+                                                                             node.symbol))
+                elif virtual_annotation:
                     invoker_name = virtual_annotation[0]
                     matched = False
                     for vfunc in parent.virtual_methods:
